@@ -1,14 +1,17 @@
 import NjectProofs.IncludeDesReq4
 import NjectProps.C14Validate
 /-
-  C14, the Desired clause for two whole runs of the include computation: a chain with provider `d` Desired (not Required, not
-  Shun'd, not in a Cluster) and the same chain with `d` Required go through flow computation, first validation, pruning
+  C14, the Desired clause for two whole runs of the include computation: a chain with provider `d` Desired or auto-desired (not
+  Required, not Shun'd, not in a Cluster) and the same chain with `d` Required go through flow computation, first validation, pruning
   (clusters, unused providers, trial rounds), the final flow computation and the final validation in lockstep -- until `d`
   is found impossible to include by one of the two validations, where the first reading leaves it out and the second fails.
 -/
 namespace Nject
 
-theorem DesD_protW {d : Nat} {x : Chain} (h : DesD d x) : ProtW (x.get d) := ⟨h.cl, h.shun, Or.inr (Or.inl h.des)⟩
+theorem DesD_protW {d : Nat} {x : Chain} (h : DesD d x) : ProtW (x.get d) :=
+  ⟨h.cl, h.shun, by rcases h.want with h1 | h1
+                    · exact Or.inr (Or.inl h1)
+                    · exact Or.inr (Or.inr h1)⟩
 
 theorem roundStep_RelD {d : Nat} {x y : Chain} (hrel : RelD d x y) (hdd : DesD d x) (hcc : CC x) (i : Nat) (hid : i ≠ d) :
     RelD d (roundStep x i) (roundStep y i) ∧ DesD d (roundStep x i) := by
@@ -37,7 +40,7 @@ theorem roundStep_RelD {d : Nat} {x y : Chain} (hrel : RelD d x y) (hdd : DesD d
 
 theorem proposalRound_RelD {d : Nat} {x y : Chain} (hrel : RelD d x y) (hdd : DesD d x) (hcc : CC x) :
     RelD d (proposalRound x) (proposalRound y) ∧ DesD d (proposalRound x) := by
-  rw [proposalRound_eq, proposalRound_eq, proposeEliminations_RelD hrel hdd.des]
+  rw [proposalRound_eq, proposalRound_eq, proposeEliminations_RelD hrel hdd.want]
   have hnp := protW_not_proposed x d (DesD_protW hdd) hdd.ex
   have key : ∀ (l : List Nat) (a b : Chain), d ∉ l → RelD d a b → DesD d a → CC a →
       RelD d (l.foldl roundStep a) (l.foldl roundStep b) ∧ DesD d (l.foldl roundStep a) := by
@@ -71,10 +74,10 @@ theorem eliminateUnused_RelD {d : Nat} : ∀ (fuel : Nat) (check : List Nat) (x 
     simp only [eliminateUnused]
     have hf := RelD_fields h1 i
     have hm := RelD_more h1 i
-    have hrd := RelD_reqdes h1 h2.des i
+    have hrd := RelD_guard h1 (DesD_wd h2) i
     have hguard : ((y.get i).c.required || (y.get i).c.desired || (y.get i).wanted || !(y.get i).inc || (y.get i).excluded || (y.get i).c.cluster != 0)
         = ((x.get i).c.required || (x.get i).c.desired || (x.get i).wanted || !(x.get i).inc || (x.get i).excluded || (x.get i).c.cluster != 0) := by
-      rw [hrd, hf.2.2.2.1, hf.1, hf.2.2.1, hm.2.2.2.2.2.2.2]
+      rw [hrd, hf.1, hf.2.2.1, hm.2.2.2.2.2.2.2]
     rw [hguard]
     split
     · exact eliminateUnused_RelD fuel check x y h1 h2
@@ -89,8 +92,11 @@ theorem eliminateUnused_RelD {d : Nat} : ∀ (fuel : Nat) (check : List Nat) (x 
       · exact eliminateUnused_RelD fuel check x y h1 h2
       · have hid : i ≠ d := by
           intro e
-          rw [e, h2.des] at hskip
-          simp at hskip
+          rw [e] at hskip
+          have := DesD_wd h2
+          rcases h2.want with h3 | ⟨h3, _⟩
+          · simp [h3] at hskip
+          · simp [h3] at hskip
         rw [hm.2.2.2.1]
         exact eliminateUnused_RelD fuel _ _ _
           (RelD_upd h1 i (fun f => { f with inc := false, cannot := true, excluded := true }) (fun f => rfl))
@@ -113,31 +119,31 @@ theorem clStep_RelD {d : Nat} {x y : Chain} (leaders : List (Nat × Nat)) (hrel 
       exact hskip.1
     have hkd : k ≠ d := fun e => hs (e ▸ hdd.cl)
     have hc : (y.get k).c = (x.get k).c := hf.2.2.2.2.2 hkd
-    rw [hc, hf.2.2.2.1]
+    rw [hc, hf.2.2.2.1 hkd]
     cases hlk : leaders.lookup (x.get k).c.cluster with
     | some l =>
       simp only []
       have r1 := RelD_upd hrel l (fun f => { f with clusterMembers := some ((f.clusterMembers.getD []) ++ [k]) }) (fun f => rfl)
       have r2 := RelD_upd r1 k (fun f => { f with clusterMembers := none }) (fun f => rfl)
-      have d1 := DesD_upd_flags hdd l (fun f => { f with clusterMembers := some ((f.clusterMembers.getD []) ++ [k]) }) (fun f => ⟨rfl, rfl⟩)
-      have d2 := DesD_upd_flags d1 k (fun f => { f with clusterMembers := none }) (fun f => ⟨rfl, rfl⟩)
+      have d1 := DesD_upd_flags hdd l (fun f => { f with clusterMembers := some ((f.clusterMembers.getD []) ++ [k]) }) (fun f => ⟨rfl, rfl, rfl⟩) (Or.inr fun f => rfl)
+      have d2 := DesD_upd_flags d1 k (fun f => { f with clusterMembers := none }) (fun f => ⟨rfl, rfl, rfl⟩) (Or.inr fun f => rfl)
       refine ⟨?_, trivial, ?_⟩
       · split
         · exact RelD_upd r2 k (fun f => { f with wantedInCluster := true }) (fun f => rfl)
         · exact r2
       · split
-        · exact DesD_upd_flags d2 k (fun f => { f with wantedInCluster := true }) (fun f => ⟨rfl, rfl⟩)
+        · exact DesD_upd_flags d2 k (fun f => { f with wantedInCluster := true }) (fun f => ⟨rfl, rfl, rfl⟩) (Or.inl hkd)
         · exact d2
     | none =>
       simp only []
       have r1 := RelD_upd hrel k (fun f => { f with clusterMembers := some [k] }) (fun f => rfl)
-      have d1 := DesD_upd_flags hdd k (fun f => { f with clusterMembers := some [k] }) (fun f => ⟨rfl, rfl⟩)
+      have d1 := DesD_upd_flags hdd k (fun f => { f with clusterMembers := some [k] }) (fun f => ⟨rfl, rfl, rfl⟩) (Or.inr fun f => rfl)
       refine ⟨?_, trivial, ?_⟩
       · split
         · exact RelD_upd r1 k (fun f => { f with wantedInCluster := true }) (fun f => rfl)
         · exact r1
       · split
-        · exact DesD_upd_flags d1 k (fun f => { f with wantedInCluster := true }) (fun f => ⟨rfl, rfl⟩)
+        · exact DesD_upd_flags d1 k (fun f => { f with wantedInCluster := true }) (fun f => ⟨rfl, rfl, rfl⟩) (Or.inl hkd)
         · exact d1
 
 theorem cl_foldl_RelD {d : Nat} : ∀ (l : List Nat) (x y : Chain) (leaders : List (Nat × Nat)), RelD d x y → DesD d x →
@@ -182,7 +188,7 @@ theorem pruneStages_RelD {d : Nat} {x y : Chain} (hrel : RelD d x y) (hdd : DesD
     rw [map_get x _ rfl d]
     simp only [hc, Bool.false_eq_true, if_false]
   have d0 : DesD d (x.map fun (f : IP) => if f.cannot then { f with excluded := true, inc := false } else f) :=
-    ⟨by simpa using hdd.lt, by rw [g0]; exact hdd.req, by rw [g0]; exact hdd.des, by rw [g0]; exact hdd.shun,
+    ⟨by simpa using hdd.lt, by rw [g0]; exact hdd.req, by rw [g0]; exact hdd.want, by rw [g0]; exact hdd.shun,
       by rw [g0]; exact hdd.cl, by rw [g0]; exact hdd.ex⟩
   have hm : ∀ j, (Chain.get (x.map fun (f : IP) => if f.cannot then { f with excluded := true, inc := false } else f) j).clusterMembers = none := by
     intro j
@@ -202,7 +208,7 @@ theorem pruneStages_RelD {d : Nat} {x y : Chain} (hrel : RelD d x y) (hdd : DesD
   generalize proposalLoop (a.length + 1) (eliminateUnused (a.length + (a.map (·.uses.length)).sum + 8) (List.range a.length) a) = r at d3
   have g1 : Chain.get (r.map fun f => { f with cannot := f.excluded }) d = { (r.get d) with cannot := (r.get d).excluded } :=
     map_get r _ rfl d
-  exact ⟨by simpa using d3.lt, by rw [g1]; exact d3.req, by rw [g1]; exact d3.des, by rw [g1]; exact d3.shun,
+  exact ⟨by simpa using d3.lt, by rw [g1]; exact d3.req, by rw [g1]; exact d3.want, by rw [g1]; exact d3.shun,
     by rw [g1]; exact d3.cl, by rw [g1]; exact d3.ex⟩
 
 /-- the include computation on a chain state: flows, first validation, pruning, flows again, final validation -/
@@ -223,8 +229,8 @@ theorem computeInclusion_eq_includeRun (ti : TyInfo) (funcs : List CP) (cannot0 
     | error e => simp
     | ok c => simp
 
-/-- **C14, the Desired clause, for two whole runs**: a chain state in which provider `d` is Desired (not Required, not Shun'd,
-    not in a Cluster, not excluded) and the same state with `d` Required: if the first run succeeds, then either `d` is
+/-- **C14, the Desired clause, for two whole runs**: a chain state in which provider `d` is Desired or auto-desired (`DesD`: not Required, not
+    Shun'd, not in a Cluster, not excluded) and the same state with `d` Required: if the first run succeeds, then either `d` is
     included and the second run succeeds with every provider marked alike, or the second run fails. -/
 theorem C14_desired_run_vs_required_run (ti : TyInfo) (ip : Option Nat) (x0 x' : Chain) (d : Nat)
     (hdd : DesD d x0) (h0 : ∀ j, (x0.get j).clusterMembers = none) (hip : ∀ p, ip = some p → p < x0.length)
@@ -251,16 +257,18 @@ theorem C14_desired_run_vs_required_run (ti : TyInfo) (ip : Option Nat) (x0 x' :
       -- what is known of d after the first validation
       have hfr1 := validate_FR true _ ch1 hv1
       have hcf : ∀ j, (ch1.get j).c = (x0.get j).c ∧ (ch1.get j).excluded = (x0.get j).excluded ∧
-          (ch1.get j).clusterMembers = (x0.get j).clusterMembers := by
+          (ch1.get j).clusterMembers = (x0.get j).clusterMembers ∧ (ch1.get j).wanted = (x0.get j).wanted ∧
+          (ch1.get j).wantedInCluster = (x0.get j).wantedInCluster := by
         intro j
         have := hfr1.2 j
         unfold flagsOnly at this
         rw [← this]
-        exact ⟨(hsf0.2 j).2.2.1, (hxf0.2 j).1, (hyf0.2 j).1⟩
+        exact ⟨(hsf0.2 j).2.2.1, (hxf0.2 j).1, (hyf0.2 j).1, (hxf0.2 j).2.2.1, (hyf0.2 j).2.1⟩
       have hl1 : ch1.length = x0.length := hfr1.1.trans hlen0
-      have hdd1 : DesD d ch1 := ⟨by rw [hl1]; exact hdd.lt, by rw [(hcf d).1]; exact hdd.req, by rw [(hcf d).1]; exact hdd.des,
+      have hdd1 : DesD d ch1 := ⟨by rw [hl1]; exact hdd.lt, by rw [(hcf d).1]; exact hdd.req,
+        by rw [(hcf d).1, (hcf d).2.2.2.1, (hcf d).2.2.2.2]; exact hdd.want,
         by rw [(hcf d).1]; exact hdd.shun, by rw [(hcf d).1]; exact hdd.cl, by rw [(hcf d).2.1]; exact hdd.ex⟩
-      have ⟨hrel2, hdd2⟩ := pruneStages_RelD hrel1 hdd1 hc1 (fun j => by rw [(hcf j).2.2]; exact h0 j)
+      have ⟨hrel2, hdd2⟩ := pruneStages_RelD hrel1 hdd1 hc1 (fun j => by rw [(hcf j).2.2.1]; exact h0 j)
       -- the final flow computation and validation
       have hrel3 := providesReturns_RelD hrel2 ti ip
       have hsf3 := providesReturns_SF ti (pruneStages ch1) ip
@@ -345,20 +353,22 @@ theorem C14_desired_included_iff_required_run_succeeds (ti : TyInfo) (ip : Optio
       have hlen0 : (providesReturns ti x0 ip).length = x0.length := hsf0.1
       have hfr1 := validate_FR true _ ch1 hv1
       have hcf : ∀ j, (ch1.get j).c = (x0.get j).c ∧ (ch1.get j).excluded = (x0.get j).excluded ∧
-          (ch1.get j).clusterMembers = (x0.get j).clusterMembers := by
+          (ch1.get j).clusterMembers = (x0.get j).clusterMembers ∧ (ch1.get j).wanted = (x0.get j).wanted ∧
+          (ch1.get j).wantedInCluster = (x0.get j).wantedInCluster := by
         intro j
         have := hfr1.2 j
         unfold flagsOnly at this
         rw [← this]
-        exact ⟨(hsf0.2 j).2.2.1, (hxf0.2 j).1, (hyf0.2 j).1⟩
+        exact ⟨(hsf0.2 j).2.2.1, (hxf0.2 j).1, (hyf0.2 j).1, (hxf0.2 j).2.2.1, (hyf0.2 j).2.1⟩
       have hl1 : ch1.length = x0.length := hfr1.1.trans hlen0
       rcases validate_desired_vs_required true d _ _ ch1 hrel0 hs0 (by rw [hlen0]; exact hdd.lt)
           (by rw [(hsf0.2 d).2.2.1]; exact hdd.req) (by rw [(hxf0.2 d).1]; exact hdd.ex) hv1 with ⟨hc1, _, y1, hy1, hrel1⟩ | ⟨hc1, _⟩
       · rw [hy1]
         simp only []
-        have hdd1 : DesD d ch1 := ⟨by rw [hl1]; exact hdd.lt, by rw [(hcf d).1]; exact hdd.req, by rw [(hcf d).1]; exact hdd.des,
+        have hdd1 : DesD d ch1 := ⟨by rw [hl1]; exact hdd.lt, by rw [(hcf d).1]; exact hdd.req,
+          by rw [(hcf d).1, (hcf d).2.2.2.1, (hcf d).2.2.2.2]; exact hdd.want,
           by rw [(hcf d).1]; exact hdd.shun, by rw [(hcf d).1]; exact hdd.cl, by rw [(hcf d).2.1]; exact hdd.ex⟩
-        have ⟨hrel2, hdd2⟩ := pruneStages_RelD hrel1 hdd1 hc1 (fun j => by rw [(hcf j).2.2]; exact h0 j)
+        have ⟨hrel2, hdd2⟩ := pruneStages_RelD hrel1 hdd1 hc1 (fun j => by rw [(hcf j).2.2.1]; exact h0 j)
         have hrel3 := providesReturns_RelD hrel2 ti ip
         have hsf3 := providesReturns_SF ti (pruneStages ch1) ip
         have hxf3 := providesReturns_XF ti (pruneStages ch1) ip
@@ -372,7 +382,7 @@ theorem C14_desired_included_iff_required_run_succeeds (ti : TyInfo) (ip : Optio
           rw [(hfix d hinc).1] at hc3; cases hc3
       · -- marked by the first validation: excluded by pruning, so not included at the end
         exfalso
-        have hmark := pruneStages_keeps_mark ch1 (fun j => by rw [(hcf j).2.2]; exact h0 j) d hc1
+        have hmark := pruneStages_keeps_mark ch1 (fun j => by rw [(hcf j).2.2.1]; exact h0 j) d hc1
         have hxf3 := providesReturns_XF ti (pruneStages ch1) ip
         have := (validate_excl true _ x' h d (by rw [(hxf3.2 d).1]; exact hmark)).1
         rw [this] at hinc; cases hinc
@@ -391,5 +401,15 @@ example : (match includeRun stdTyInfo none c14LockChain, includeRun stdTyInfo no
         && (c14LockChain.get 0).c.desired && !(c14LockChain.get 0).c.required && !(c14LockChain.get 0).c.shun
         && (c14LockChain.get 0).c.cluster == 0 && !(c14LockChain.get 0).excluded
     | _, _, _ => false) = true := by decide
+
+
+/-- the same for an auto-desired provider (no outputs: flag `wanted`): provider 1 of `c14WantedExample` made Required -/
+def c14LockChainW : Chain := initState c14WantedExample []
+
+example : (match includeRun stdTyInfo none c14LockChainW, includeRun stdTyInfo none (c14LockChainW.upd 1 reqF) with
+    | .ok x', .ok y' => (x'.get 1).inc && (y'.get 1).inc && (x'.get 0).inc == (y'.get 0).inc
+        && (c14LockChainW.get 1).wanted && !(c14LockChainW.get 1).wantedInCluster && !(c14LockChainW.get 1).c.desired
+        && !(c14LockChainW.get 1).c.required && !(c14LockChainW.get 1).c.shun && (c14LockChainW.get 1).c.cluster == 0
+    | _, _ => false) = true := by decide
 
 end Nject
